@@ -665,6 +665,19 @@ func (m *Machine) builtinExternal(fn *ssa.Function, args []Value) (Value, bool) 
 		"(*sync.RWMutex).RLock", "(*sync.RWMutex).RUnlock", "(*sync.WaitGroup).Add", "(*sync.WaitGroup).Done", "(*sync.WaitGroup).Wait":
 		// single abstract thread: locks are no-ops for the value semantics analysed here
 		return nil, true
+	case "gonum.org/v1/gonum/floats.Sum", "gonum.org/v1/gonum/floats.SumCompensated":
+		// the sum of the elements (compensation changes rounding only)
+		if sl, ok := args[0].(SliceV); ok {
+			acc := sym.Expr{}
+			for _, el := range SliceElems(sl) {
+				f, isF := el.(FloatV)
+				if !isF {
+					return nil, false
+				}
+				acc = sym.Add(acc, f.E)
+			}
+			return FloatV{acc}, true
+		}
 	case "math.Frexp":
 		// x = frac · 2^exp with an unknown integer exponent
 		ex := sym.PAtom(m.FreshSym("frexp"))
